@@ -39,6 +39,8 @@ template<typename Cfg> struct guest<Cfg, unsigned long long> { using type = std:
 // every unsigned type through its signed counterpart (short / int)
 template<typename Cfg> struct guest<Cfg, char16_t> { using type = std::make_unsigned_t<typename Cfg::S>; };
 template<typename Cfg> struct guest<Cfg, char32_t> { using type = std::make_unsigned_t<typename Cfg::I>; };
+// wchar_t is signed here and travels as the signed integer type of its size (int)
+template<typename Cfg> struct guest<Cfg, wchar_t> { using type = typename Cfg::I; };
 template<typename Cfg, typename T> struct guest<Cfg, T*> { using type = typename Cfg::P; };
 template<typename Cfg, typename T> struct guest<Cfg, const T, std::enable_if_t<!std::is_pointer_v<T>>>
 { using type = const typename guest<Cfg, T>::type; };
